@@ -326,6 +326,9 @@ class Engine:
             ty_full = self.aliases.get(ty_bare, None)
             if tr is None:
                 self.inherent['%s::%s::%s' % (mod, ty_bare, meth)] = name
+                for full in list(self.structs) + list(self.enums):
+                    if full.endswith('::' + ty_bare):
+                        self.inherent['%s::<impl %s>::%s' % (mod, full, meth)] = name
             else:
                 trn = re.sub(r'<.*', '', tr).split('::')[-1]
                 targ = re.search(r'<(.*)>', tr)
@@ -899,6 +902,9 @@ class Engine:
             r = ('mir', bare)
         elif bare in self.inherent:
             r = ('mir', self.inherent[bare])
+        elif '::<impl ' in callee and re.match(r"(\w+)::<impl ([\w:]+)(?:<[^>]*>)?>::(\w+)", callee) and \
+                '%s::<impl %s>::%s' % re.match(r"(\w+)::<impl ([\w:]+)(?:<[^>]*>)?>::(\w+)", callee).groups() in self.inherent:
+            r = ('mir', self.inherent['%s::<impl %s>::%s' % re.match(r"(\w+)::<impl ([\w:]+)(?:<[^>]*>)?>::(\w+)", callee).groups()])
         else:
             q = split_qualified(callee)
             if q:
